@@ -755,7 +755,40 @@ func (c *Ctx) errEdgeDischarged(errv ssa.Value) (bool, string) {
 		return false, "error value is not an instruction"
 	}
 	tested := false
+	// the error may live in a cell (a named result captured by a deferred closure): the loads that follow the store in the same
+	// block, before the cell is written again, are the same error
+	refs := append([]ssa.Instruction(nil), valueReferrers(errv)...)
 	for _, ref := range valueReferrers(errv) {
+		st, isStore := ref.(*ssa.Store)
+		if !isStore || st.Val != errv {
+			continue
+		}
+		if _, isCell := st.Addr.(*ssa.Alloc); !isCell {
+			continue
+		}
+		after := false
+		for _, in := range st.Block().Instrs {
+			if in == ssa.Instruction(st) {
+				after = true
+				continue
+			}
+			if !after {
+				continue
+			}
+			if st2, ok := in.(*ssa.Store); ok && st2.Addr == st.Addr {
+				break
+			}
+			if u, ok := in.(*ssa.UnOp); ok && u.Op == token.MUL && u.X == st.Addr {
+				refs = append(refs, valueReferrers(u)...)
+				for _, ur := range valueReferrers(u) {
+					if ret, isRet := ur.(*ssa.Return); isRet && (returnedErr(ret) == ssa.Value(u) || containsVal(ret.Results, u)) {
+						tested = true
+					}
+				}
+			}
+		}
+	}
+	for _, ref := range refs {
 		switch r := ref.(type) {
 		case *ssa.Return:
 			if returnedErr(r) == errv || containsVal(r.Results, errv) {
@@ -768,7 +801,7 @@ func (c *Ctx) errEdgeDischarged(errv ssa.Value) (bool, string) {
 			}
 		case *ssa.BinOp:
 			x, nonNilWhenTrue, ok := errNilTest(r)
-			if !ok || x != errv {
+			if !ok || (x != errv && !loadOfCellHolding(x, errv)) {
 				continue
 			}
 			for _, rr := range valueReferrers(r) {
@@ -793,6 +826,28 @@ func (c *Ctx) errEdgeDischarged(errv ssa.Value) (bool, string) {
 		return false, "the error is never tested against nil nor returned"
 	}
 	return true, ""
+}
+
+// loadOfCellHolding: x is a load of a local cell in which errv was stored earlier in the same block (no store in between).
+func loadOfCellHolding(x, errv ssa.Value) bool {
+	u, ok := x.(*ssa.UnOp)
+	if !ok || u.Op != token.MUL {
+		return false
+	}
+	cell, ok := u.X.(*ssa.Alloc)
+	if !ok {
+		return false
+	}
+	holds := false
+	for _, in := range u.Block().Instrs {
+		if in == ssa.Instruction(u) {
+			return holds
+		}
+		if st, isSt := in.(*ssa.Store); isSt && st.Addr == ssa.Value(cell) {
+			holds = st.Val == errv
+		}
+	}
+	return false
 }
 
 func containsVal(vs []ssa.Value, v ssa.Value) bool {
